@@ -14,8 +14,8 @@ Stage C: (a) the real experiment: a child process (real IdentityDatabase / Attes
              A fresh process reopens, dumps every table and rebuilds the pseudonyms.  The outcome is compared
              with the model's prediction for that instant (inside Coq), and judged by the oracle below.
              Files written by older releases (version-1 wallet and identity files) are opened - and thereby
-             upgraded - under the same kills; the upgrade SQL is outside the Coq model, these runs are judged by
-             the oracle only.
+             upgraded - under the same kills, and compared per kill instant with the statement-level transaction
+             model (model/M19_sqltx.v, props/C19x.v) as well as judged by the oracle.
          (b) in-process: random sequences of insert calls, `with db:` enter/exit (plain, IgnoreCommits, other
              exception), commit(), check_database against the model; committed content is read through a
              second connection after every action.
@@ -397,6 +397,21 @@ def observe_main(spec_path):
             res["wallet"]["malformed"] = bad
         except BaseException as e:
             res["wallet"] = {"get_all": type(e).__name__}
+    # every table that exists in the file (a half-done upgrade may leave others than the schema's)
+    try:
+        c2 = sqlite3.connect(dbfile)
+        c2.text_factory = bytes
+        names = [r[0].decode() if isinstance(r[0], bytes) else r[0]
+                 for r in c2.execute("SELECT name FROM sqlite_master WHERE type = 'table' ORDER BY name")]
+        res["all_tables"] = names
+        res["extra_tables"] = {}
+        for n in names:
+            if n not in tables and n != "option":
+                res["extra_tables"][n] = [[hx(x) if isinstance(x, (bytes, type(None))) else x for x in r]
+                                          for r in c2.execute("SELECT * FROM %s ORDER BY rowid" % n)]
+        c2.close()
+    except sqlite3.Error as e:
+        res["all_tables"] = "error:" + type(e).__name__
     with open(spec["out"], "w") as f:
         json.dump(res, f)
     os._exit(0)
@@ -817,6 +832,105 @@ def enc_obs(kind, obs, ids):
     return out
 
 
+# ----------------------------------------------------------------------------------------------- upgrade model (C19x)
+IMPORTS_X = ("From Coq Require Import ZArith List Bool.\n"
+             "From IPV8V Require Import lib.PyErr lib.Bytes model.M19_sqltx gen.G19x_upgrade.\n"
+             "Import ListNotations.\nOpen Scope Z_scope.\n")
+RANGE_PREAMBLE_X = """
+Definition upgrade_range_case : Type :=
+  ucfg * xstate (list xrow) * list Z * list (list (nat * xrow) * nat) * list (nat * xrow) * nat * nat * list Z.
+Definition run_upgrade_range (c : upgrade_range_case) : bool :=
+  let '(cfg, d0, ts, h, calls, lo, n, e) := c in
+  existsb (fun k => zl_eqb (upgrade_obs cfg d0 ts (h ++ [(calls, k)])) e) (seq lo n).
+"""
+XMETA = {"table_ids": {}, "literals": {}}      # filled from tr_db.write_upgrade
+# the version-1 files as the model sees them: table -> (key columns, width)   (history, see spec/S19x_legacy.v)
+V1_SHAPE = {"identity-v1": {"Tokens": ([0, 1, 3], 5), "Metadata": ([0, 1], 4), "Attestations": ([0, 2], 4)},
+            "wallet-v1": {WALLET_NAME: ([0], 3)}}
+
+
+def xids():
+    ids = Ids()
+    ids.m[None] = -1                                   # SQL NULL
+    for text, v in XMETA["literals"].items():
+        ids.m[hx(text.encode())] = v
+    return ids
+
+
+def xtid(name):
+    return XMETA["table_ids"].get("<db_name>" if name == WALLET_NAME else name, 99)
+
+
+def upgrade_instants(events):
+    """model instant (model/M19_sqltx.v: SQL statements completed, implicit BEGIN/COMMIT included) of every event"""
+    out, count, pending = [], 0, False
+    for label, _vm in events:
+        if label.startswith("sql:") and label[4:].split()[0].upper().rstrip(";") not in ("SELECT", "PRAGMA", "VACUUM"):
+            if pending:
+                count += 1
+            pending = True
+        elif label.startswith("exc:"):
+            pending = False                            # the statement in flight raised: it did not complete
+        elif not label.startswith("sql:"):
+            if pending:
+                count += 1
+            pending = False
+        out.append(count)
+    return out
+
+
+def v1_file_to_coq(legacy, ids):
+    tabs = []
+    for t, (pk, n) in V1_SHAPE[legacy["kind"]].items():
+        rows = legacy["rows"].get(t, [])
+        tabs.append("mkXT %d [%s] %d%%nat [%s]" % (xtid(t), "; ".join("%d%%nat" % i for i in pk), n,
+                                                    "; ".join(zl([ids.of(x) for x in r]) for r in rows)))
+    tabs.append("mkXT 0 [0%nat] 2%nat [[0; 1]]")
+    return "[" + "; ".join(tabs) + "]"
+
+
+def xcalls_to_coq(kind, calls, ids):
+    return "[" + "; ".join("(%d%%nat, %s)" % (ID_FUNCS[s["fn"]] if kind == "identity" else 0, zl([ids.of(x) for x in s["row"]]))
+                           for s in calls) + "]"
+
+
+def enc_xobs(kind, obs, ids):
+    """observer result -> the flat list M19_sqltx.upgrade_obs produces"""
+    tables = dict(obs.get("tables", {}))
+    tables.update(obs.get("extra_tables", {}) or {})
+    names = obs.get("all_tables")
+    names = names if isinstance(names, list) else [t for t, v in tables.items() if isinstance(v, list)]
+    ver = 0
+    opt = tables.get("option")
+    if "option" in names and isinstance(opt, list):
+        for r in opt:
+            if r[0] == hx(b"database_version"):
+                try:
+                    ver = int(bytes.fromhex(r[1]).decode())
+                except Exception:
+                    ver = -2
+                break
+    out = [1 if obs.get("open") == "ok" else 3, ver]
+    for t in xts(kind):
+        name = [n for n in names if xtid(n) == t]
+        rows = tables.get(name[0]) if name else None
+        if not name or not isinstance(rows, list):
+            out.append(-1)
+            continue
+        out.append(len(rows))
+        for r in rows:
+            out.append(len(r))
+            out.extend(ids.of(x) for x in r)
+    return out
+
+
+def xts(kind):
+    if kind == "identity":
+        return [xtid("Tokens"), xtid("Metadata"), xtid("Attestations")] + \
+               sorted(v for n, v in XMETA["table_ids"].items() if n not in ("option", "Tokens", "Metadata", "Attestations", "<db_name>"))
+    return [xtid(WALLET_NAME)]
+
+
 # ----------------------------------------------------------------------------------------------- workloads
 class World:
     def __init__(self, r: random.Random, nkeys=3):
@@ -1041,7 +1155,10 @@ def run_scenario(ctx, lab: Lab, scen, gen_text, pool, every_event=True, vm_kills
         base = lab.newdir("base")
         if scen.get("legacy"):
             make_legacy(base, scen["legacy"])
-        ids = Ids()
+        legacy = scen.get("legacy")
+        ids = xids() if legacy else Ids()
+        instants = upgrade_instants if legacy else (lambda ev: model_instants(ev, n_script_statements(kind, gen_text)))
+        render_calls = xcalls_to_coq if legacy else calls_to_coq
         hist_model = []       # [(coq actions, k)] of the processes before the last
         ok = True
         nprocs = len(scen["procs"])
@@ -1059,10 +1176,10 @@ def run_scenario(ctx, lab: Lab, scen, gen_text, pool, every_event=True, vm_kills
             events = json.load(open(os.path.join(dry, "ev.json")))
             st, _, _ = read_acklog(os.path.join(dry, "ack.log"))
             calls = [s for s in st if s["proc"] == pi]
-            inst = model_instants(events, n_script_statements(kind, gen_text))
+            inst = instants(events)
             lab.run_proc(scen, base, pi, scen["procs"][pi], kill=kill)
             k = inst[fk] if kill else (inst[-1] if inst else 0)      # the end: every step of this process done
-            hist_model.append("(%s, %d%%nat)" % (calls_to_coq(kind, calls, ids), k))
+            hist_model.append("(%s, %d%%nat)" % (render_calls(kind, calls, ids), k))
             shutil.rmtree(dry, ignore_errors=True)
         if not ok:
             continue
@@ -1076,11 +1193,12 @@ def run_scenario(ctx, lab: Lab, scen, gen_text, pool, every_event=True, vm_kills
         events = json.load(open(os.path.join(dry, "ev.json")))
         st, ak, _ = read_acklog(os.path.join(dry, "ack.log"))
         calls = [s for s in st if s["proc"] == last]
-        inst = model_instants(events, n_script_statements(kind, gen_text))
+        inst = instants(events)
         total_vm = events[-1][1] if events else 0
         end_k = inst[-1] if inst else 0                          # instant after the last step of the process
         kills = [["event", i] for i in range(len(events))
-                 if (every_event and fk is None) or essential_event(events[i][0])]
+                 if (every_event and fk is None) or essential_event(events[i][0])
+                 or (legacy and events[i][0].startswith("sql:BEGIN"))]
         kills.append(None)                                           # runs to its end, no close
         if fk is None:
             for _ in range(vm_kills):
@@ -1112,9 +1230,7 @@ def run_scenario(ctx, lab: Lab, scen, gen_text, pool, every_event=True, vm_kills
             for key, what in viol:
                 ctx.violation(key, "%s [%s, last process killed at %s]" % (what, scen["label"], label), case)
             results.append((kill, obs, started, acked, viol))
-            if scen.get("legacy"):
-                continue              # the upgrade of an old file is outside the Coq model: oracle only
-            e = enc_obs(kind, obs, ids)
+            e = enc_xobs(kind, obs, ids) if legacy else enc_obs(kind, obs, ids)
             if kill is None:
                 exact.append((end_k, e))
             elif kill[0] == "event":
@@ -1129,7 +1245,20 @@ def run_scenario(ctx, lab: Lab, scen, gen_text, pool, every_event=True, vm_kills
             else:
                 ranged.append((0, end_k, e))
         hist = "[" + "; ".join(hist_model) + "]"
-        acts = calls_to_coq(kind, calls, ids)
+        acts = render_calls(kind, calls, ids)
+        if legacy:
+            # the statement-level transaction model (C19x): open of a version-1 file, then the insert calls
+            head = "(%s, %s, %s, %s, %s" % ("identity_ucfg" if kind == "identity" else "wallet_ucfg",
+                                            v1_file_to_coq(legacy, ids), zl(xts(kind)), hist, acts)
+            if exact:
+                coq_cases.append(("xexact", head + ", [%s])" % "; ".join("%d%%nat" % k for k, _ in exact),
+                                  "[" + "; ".join(zl(e) for _, e in exact) + "]",
+                                  {"scenario": scen["label"], "first_proc_kill": fk}))
+            for lo, hi, e in ranged:
+                coq_cases.append(("xrange", head + ", %d%%nat, %d%%nat, %s)" % (lo, hi - lo + 1, zl(e)), "true",
+                                  {"scenario": scen["label"], "first_proc_kill": fk, "range": [lo, hi]}))
+            shutil.rmtree(base, ignore_errors=True)
+            continue
         cfg = "identity_cfg" if kind == "identity" else "wallet_cfg"
         tabs = "identity_tables" if kind == "identity" else "wallet_tables"
         if exact:
@@ -1347,9 +1476,20 @@ def _run(ctx, scratch, tr_db, coqrun, VERIF):
             TABLE_PK[WALLET_NAME if name == "<db_name>" else name] = list(t["pk"])   # the keys the source declares
     except Exception as e:   # Unsupported or anything else: fail closed
         ctx.broke("translator tr_db aborted", e)
+    # the upgrade programs (C19x): recorded from check_database; on failure only C19x is affected
+    xgen = None
+    try:
+        xgen, xmeta = tr_db.write_upgrade()
+        ctx.extra["generated"] = dict(ctx.extra.get("generated", {}), **{"gen/G19x_upgrade.v": hashlib.sha256(xgen.encode()).hexdigest()[:16]})
+        ctx.extra["upgrade_calls"] = {"identity": xmeta["identity_upgrade_calls"], "wallet": xmeta["wallet_upgrade_calls"]}
+        XMETA["table_ids"], XMETA["literals"] = xmeta["table_ids"], xmeta["literals"]
+    except Exception as e:
+        ctx.broke("translator tr_db (upgrade programs) aborted", e)
     # ---- stage P
     if gen_text is not None:
         ctx.proofs()
+        if xgen is not None:
+            ctx.proofs(part="C19x")
     else:
         # the experiments below still need some generated file to evaluate the model
         if os.path.exists(tr_db.DEST):
@@ -1362,6 +1502,14 @@ def _run(ctx, scratch, tr_db, coqrun, VERIF):
         "hand model coq/model/M19_crash.v of Database.commit/__enter__/__exit__/open/executescript (shape-checked "
         "against the source, tied by the in-process and kill correspondences)",
         "the harness: wrappers in the child process, acknowledgement log, event -> model instant mapping",
+        "C19x: the transaction rules of model/M19_sqltx.v - S1 a statement outside a transaction is its own atomic "
+        "transaction; S2 BEGIN/COMMIT open/publish (errors when nested / none open); S3 statements in a transaction are "
+        "not published; S4 a failing statement has no effect and an executescript stops there; P1 Cursor.execute issues an "
+        "implicit BEGIN before INSERT/UPDATE/DELETE/REPLACE only; P2 Cursor.executescript commits an open transaction "
+        "first and then passes the statements unchanged; P3 Connection.commit; K a kill keeps exactly the published "
+        "content - and its reading of CREATE IF NOT EXISTS / ALTER RENAME / ALTER ADD / INSERT..SELECT / UPDATE / DROP; "
+        "the version-1 file shapes of spec/S19x_legacy.v; compared per kill instant with real version-1 files",
+        "translator tr_db.generate_upgrade: check_database run on a recording stub for every version, SQL split on ';'",
     ]
     ctx.assumptions = ["process kill (SIGKILL), not power loss: the OS page cache survives",
                        "python sqlite3 legacy transaction control (implicit BEGIN before INSERT; executescript commits first)",
@@ -1392,6 +1540,12 @@ def _run(ctx, scratch, tr_db, coqrun, VERIF):
         plan.append((onew, dict(vm_kills=40, timer_kills=20)))
         plan.append((legacy_wallet(w), dict(vm_kills=40, timer_kills=20)))
         plan.append((legacy_identity(w), dict(vm_kills=40, timer_kills=20)))
+        # an upgrade killed twice: a first open killed inside / right after the upgrade, then the workload process
+        for mk, fks in ((legacy_identity, (13, 18, 22, 23, 29, 30)), (legacy_wallet, (13, 15, 16, 17, 22))):
+            sc2 = mk(w)
+            sc2["procs"] = [[]] + sc2["procs"]
+            sc2["label"] += "-killed-twice"
+            plan.append((sc2, dict(every_event=False, first_proc_kills=fks)))
         for gi in range(3):
             wg = World(ctx.rng("gen-world/%d" % gi), 3)
             g = random_identity(wg, 40, 3)
@@ -1444,6 +1598,33 @@ def _run(ctx, scratch, tr_db, coqrun, VERIF):
             ctx.coverage["traces_validated_against_impl"] += len(rg) - len(mism)
     else:
         ctx.broke("model not evaluated: gen/G19_db.vo missing")
+    # ---- the statement-level transaction model on the old-file scenarios
+    xex = [(c, e, m) for kind, c, e, m in all_cases if kind == "xexact"]
+    xrg = [(c, e, m) for kind, c, e, m in all_cases if kind == "xrange"]
+    if (xex or xrg) and xgen is not None and os.path.exists(os.path.join(VERIF, "coq", "gen", "G19x_upgrade.vo")):
+        mism, errs = coqrun.eval_mismatches(IMPORTS_X, "run_upgrade_case", "rows_eqb", [(c, e) for c, e, _ in xex],
+                                            os.path.join(scratch, "cq_xexact"), ctype="upgrade_case * list (list Z)",
+                                            shard=1, jobs=workers, max_bytes=40000)
+        for e in errs:
+            ctx.broke("model evaluation failed (upgrade cases)", e)
+        for i in mism:
+            ctx.broke("correspondence: a version-1 file killed while it is opened differs from the transaction model's "
+                      "prediction at some kill instant of %s" % (xex[i][2],), xex[i][0][:1500])
+        n_x = sum(e.count("[") - 1 for i, (_, e, _) in enumerate(xex) if i not in mism)
+        if xrg:
+            mism, errs = coqrun.eval_mismatches(IMPORTS_X, "run_upgrade_range", "Bool.eqb", [(c, e) for c, e, _ in xrg],
+                                                os.path.join(scratch, "cq_xrange"), ctype="upgrade_range_case * bool",
+                                                shard=12, jobs=workers, preamble=RANGE_PREAMBLE_X, max_bytes=60000)
+            for e in errs:
+                ctx.broke("model evaluation failed (upgrade, mid-statement / timer kills)", e)
+            for i in mism:
+                ctx.broke("correspondence: a version-1 file killed mid-statement or by timer matches no instant of the "
+                          "transaction model %s" % (xrg[i][2],), xrg[i][0][:1500])
+            n_x += len(xrg) - len(mism)
+        ctx.coverage["traces_validated_against_impl"] += n_x
+        ctx.extra["upgrade_kills_compared_with_model"] = n_x
+    elif xex or xrg:
+        ctx.broke("upgrade model not evaluated: gen/G19x_upgrade.vo missing")
     ctx.extra["t_model_crash_s"] = round(time.time() - ctx.t0, 1)
     # ---- (b) in-process
     ctx.extra["processes"] = {"forked_from_template": FAST["forked"], "fresh_interpreters": FAST["fresh"]}
